@@ -198,6 +198,12 @@ def handle : Handler := fun j a => do
           let asyncEscape := cfg.async && sw.causeAuto && cfg.asyncAllowedLag > 0
           if (good.length : Int) < quorum && !asyncEscape then
             a := a.violationSig "C01:promotion-without-a-frozen-caught-up-quorum" s!"promoted {h}: frozen and contained = {good} of {active}, quorum {quorum}; {j.compress}"
+          -- C19: never promoted while it carries relaxed settings or is still registered as optimising
+          let reg := (jStrList s "opt_registry").toOption.getD []
+          let flush := jIntOr ((((jOpt s "nodes").bind fun n => n.getArr?.toOption).getD #[]).toList.find? (fun n => jStrOr n "host" "" == h) |>.getD Json.null) "flush_log" 1
+          let syncb := jIntOr ((((jOpt s "nodes").bind fun n => n.getArr?.toOption).getD #[]).toList.find? (fun n => jStrOr n "host" "" == h) |>.getD Json.null) "sync_binlog" 1
+          if reg.contains h then a := a.violationSig "C19:node-promoted-while-registered-as-optimising" j.compress
+          if flush != 1 || syncb != 1 then a := a.violationSig "C19:node-promoted-while-carrying-relaxed-durability-settings" j.compress
           -- lock re-confirmed after freezing and after catch-up
           let before := obs.takeWhile fun o => !(o.s == "setWritable" && o.host == h)
           if !(before.any (fun o => o.s == "lockCheck" && o.n == 1 && o.ok) && before.any (fun o => o.s == "lockCheck" && o.n == 2 && o.ok)) then
